@@ -30,6 +30,10 @@ type c02Step struct {
 
 type c02Case struct {
 	Offset uint64 // robust.MessageOffset in force (main's default is 4648398125000000000)
+	// JSONFirst: the node starts with -pre1.0_protobuf=false (JSON entries, stores and snapshots)
+	// and is switched to protobuf at its first restart (the upgrade path: the database is
+	// converted, a JSON snapshot is restored by a protobuf node)
+	JSONFirst bool
 	Seed   int64
 	Params verifgen.Params
 	Steps  []c02Step
@@ -265,7 +269,8 @@ func runC02Case(rep *verifrep.R, dir string, c c02Case) {
 	os.MkdirAll(dir, 0755)
 	defer os.RemoveAll(dir)
 	robust.MessageOffset = c.Offset
-	defer func() { robust.MessageOffset = 0 }()
+	verifStoreProto = !c.JSONFirst
+	defer func() { robust.MessageOffset = 0; verifStoreProto = true; *useProtobuf = true }()
 	c.Params.Commands = verifCommands()
 	hist := verifgen.New(c.Seed, c.Params).History()
 	r := &c02Run{rep: rep, c: c, liveAt: map[uint64]map[uint64]bool{}}
@@ -402,6 +407,11 @@ func runC02Case(rep *verifrep.R, dir string, c c02Case) {
 			}
 			sig = append(sig, "restore")
 		case "restart":
+			if c.JSONFirst && !verifStoreProto {
+				verifStoreProto = true
+				*useProtobuf = true
+				r.rep.Obs("restart.upgrade-json-to-protobuf", 1)
+			}
 			r.f.restart()
 			idx, err := r.f.restoreLatest()
 			if err != nil {
@@ -459,7 +469,7 @@ func runC02Case(rep *verifrep.R, dir string, c c02Case) {
 			r.viol("state-differs-after-probes:"+strings.Join(d, "+"), fmt.Sprintf("after the probe continuation the states differ in %v", d))
 		}
 	}
-	r.rep.Case(fmt.Sprintf("schedule|%s|gaps=%v|offset=%v", strings.Join(sig, ","), c.Params.IndexGaps, c.Offset != 0))
+	r.rep.Case(fmt.Sprintf("schedule|%s|gaps=%v|offset=%v|jsonfirst=%v", strings.Join(sig, ","), c.Params.IndexGaps, c.Offset != 0, c.JSONFirst))
 	r.rep.Obs(fmt.Sprintf("schedules.message-offset-nonzero=%v", c.Offset != 0), 1)
 	r.rep.Obs("schedules", 1)
 }
@@ -492,6 +502,18 @@ func TestVerifC02(t *testing.T) {
 		rng := rand.New(rand.NewSource(seed))
 		p := verifgen.Params{Len: 5 + rng.Intn(116), Garbage: 0.02, Services: rng.Intn(2) == 0, Captcha: rng.Intn(4) == 0, IndexGaps: rng.Intn(3) != 0, Deletes: true, MoD: rng.Intn(6) == 0, NoConfig: rng.Intn(8) == 0}
 		c := c02Case{Seed: seed, Params: p, Steps: c02Schedule(rng, p.Len), Offset: []uint64{0, 1000, 4648398125000000000}[rng.Intn(3)]}
+		if k%4 == 3 {
+			c.JSONFirst = true
+			// make sure the upgrade happens with a snapshot on disk and is followed by another cycle
+			for si, st := range c.Steps {
+				if st.Kind == "snapshot" {
+					rest := append([]c02Step{{Kind: "restart"}}, c.Steps[si+1:]...)
+					c.Steps = append(c.Steps[:si+1:si+1], rest...)
+					break
+				}
+			}
+			c.Steps = append(c.Steps, c02Step{Kind: "snapshot", CutAt: 1 << 30}, c02Step{Kind: "restore"})
+		}
 		if k == 0 {
 			rep.Sample(map[string]interface{}{"seed": seed, "history_len": p.Len, "steps": c.Steps})
 		}
